@@ -41,6 +41,25 @@ func errOut(name string, cls OutClass, applied bool, e message.Error) OutcomeSpe
 // DrawOutcome draws one non-OK outcome. v is the protocol version of the backend connection
 // (read/write failures do not exist before v4).
 func DrawOutcome(c *choice.Stream, v primitive.ProtocolVersion) OutcomeSpec {
+	return DrawOutcomeX(c, v, false)
+}
+
+// DrawOutcomeX: with exotic, one outcome in eight is an ERROR response that a node newer than the
+// proxy's codec library sends and the library refuses to decode (error codes CAS_WRITE_UNKNOWN
+// 0x1700 and CDC_WRITE_FAILURE 0x1600, a WRITE_FAILURE with write type CAS). The proxy can only
+// pass such a response on; whether the write was applied is unknown.
+func DrawOutcomeX(c *choice.Stream, v primitive.ProtocolVersion, exotic bool) OutcomeSpec {
+	if exotic && c.Choose("exotic?", 8) == 7 {
+		tail := []byte{0, 4, 0, 0, 0, 1, 0, 0, 0, 2} // <cl><received><blockfor>
+		switch k := c.Choose("exotickind", 3); {
+		case k == 0:
+			return OutcomeSpec{Outcome: Outcome{Kind: OutRawError, Name: "undecodable_cas_write_unknown", RawCode: 0x1700, RawTail: tail}, Class: ClsFinal, MaybeApplied: true}
+		case k == 1 && v == primitive.ProtocolVersion4:
+			return OutcomeSpec{Outcome: Outcome{Kind: OutRawError, Name: "undecodable_write_failure_cas", RawCode: 0x1500, RawTail: append(append([]byte{}, tail...), 0, 0, 0, 1, 0, 3, 'C', 'A', 'S')}, Class: ClsFinal, MaybeApplied: true}
+		default:
+			return OutcomeSpec{Outcome: Outcome{Kind: OutRawError, Name: "undecodable_cdc_write_failure", RawCode: 0x1600}, Class: ClsFinal, MaybeApplied: true}
+		}
+	}
 	cl := primitive.ConsistencyLevelQuorum
 	kinds := 17
 	switch c.Choose("outcome", kinds) {
